@@ -91,6 +91,8 @@ type Config struct {
 	NoMerge     bool
 	BudgetIsViolation bool
 	ConcretizeN int
+	MaxDecisions int
+	BatchMax     int
 }
 
 type Result struct {
@@ -344,7 +346,7 @@ func (ex *Exec) branch(cond *Term) bool {
 		return false
 	}
 	if ex.guard != nil {
-		panic(mergeFail{"branch in merged arm"})
+		return ex.guardedBranch(cond)
 	}
 	if v, ok := ex.knownFact(cond); ok {
 		ex.res.FactHits++
@@ -462,6 +464,9 @@ func (ex *Exec) branch(cond *Term) bool {
 	ex.event++
 	ex.depth++
 	ex.res.Decisions++
+	if ex.depth > ex.cfg.MaxDecisions {
+		panic(pathAbort{kind: "budget", msg: fmt.Sprintf("more than %d decisions on one path (unbounded loop over a symbolic bound?) at %s", ex.cfg.MaxDecisions, ex.pos(ex.curPos))})
+	}
 	if !n.pending {
 		ex.res.OneSided++
 	}
@@ -633,6 +638,9 @@ func (ex *Exec) check(c *Term, site string) {
 		return
 	}
 	ex.pending = append(ex.pending, pendingAssert{c, site})
+	if len(ex.pending) >= ex.cfg.BatchMax {
+		ex.flushAsserts()
+	}
 }
 
 type pendingAssert struct {
@@ -878,4 +886,40 @@ func (ex *Exec) auxRecord(r AuxRec) {
 	} else {
 		ex.stack[ex.auxOwner].auxAfter = append(ex.stack[ex.auxOwner].auxAfter, r)
 	}
+}
+
+// guardedBranch decides a run-time check inside a merged arm without forking: the
+// check must be valid (or unsatisfiable) whenever the arm's guard holds, otherwise
+// the merge is abandoned. Outcomes are recorded in the decision trail so that
+// re-executions (whose solver context is stronger) repeat them.
+func (ex *Exec) guardedBranch(cond *Term) bool {
+	if v, ok := ex.knownFact(cond); ok {
+		return v
+	}
+	outcome := uint64(2)
+	if rec, ok := ex.auxChoice(); ok {
+		outcome = rec.V
+	} else {
+		if ex.silent() {
+			panic(mergeFail{"unrecorded check in merged arm during re-execution"})
+		}
+		if r0, _ := ex.sol.Check(ex.c.Not(cond), false, nil, nil); r0 == "unsat" {
+			outcome = 3 // valid on the whole path, not only under the guard
+		} else if r, _ := ex.sol.Check(ex.c.And(ex.guard, ex.c.Not(cond)), false, nil, nil); r == "unsat" {
+			outcome = 1
+		} else if r2, _ := ex.sol.Check(ex.c.And(ex.guard, cond), false, nil, nil); r2 == "unsat" {
+			outcome = 0
+		}
+		ex.auxRecord(AuxRec{Site: ex.instrs, V: outcome})
+	}
+	switch outcome {
+	case 3:
+		ex.learn(cond, true) // implied by the path condition: later identical checks are free
+		return true
+	case 1:
+		return true
+	case 0:
+		return false
+	}
+	panic(mergeFail{"branch in merged arm"})
 }
